@@ -23,6 +23,7 @@ import (
 	"encoding/hex"
 	"encoding/json"
 	"errors"
+	"fmt"
 	"io"
 	"math"
 	"net/http"
@@ -377,7 +378,10 @@ func (m *lfsModule) handleHTTPProduce(w http.ResponseWriter, r *http.Request) {
 	}
 	defer func() { _ = backendConn.Close() }()
 
-	_, err = m.forwardToBackend(r.Context(), backendConn, payload)
+	respBytes, err := m.forwardToBackend(r.Context(), backendConn, payload)
+	if err == nil {
+		err = lfsCheckProduceAck(respBytes, reqHeader.APIVersion, topic, partition)
+	}
 	if err != nil {
 		m.metrics.IncRequests(topic, "error", "lfs")
 		m.trackOrphans([]orphanInfo{{Topic: topic, Key: objectKey, RequestID: requestID, Reason: "kafka_produce_failed"}})
@@ -1066,7 +1070,11 @@ func (m *lfsModule) handleHTTPUploadComplete(w http.ResponseWriter, r *http.Requ
 	}
 	defer func() { _ = backendConn.Close() }()
 
-	if _, err := m.forwardToBackend(r.Context(), backendConn, payload); err != nil {
+	respBytes, err := m.forwardToBackend(r.Context(), backendConn, payload)
+	if err == nil {
+		err = lfsCheckProduceAck(respBytes, reqHeader.APIVersion, session.Topic, session.Partition)
+	}
+	if err != nil {
 		m.trackOrphans([]orphanInfo{{Topic: session.Topic, Key: session.S3Key, RequestID: requestID, Reason: "kafka_produce_failed"}})
 		m.tracker.EmitUploadFailed(requestID, session.Topic, session.S3Key, "backend_error", err.Error(), "kafka_produce", session.TotalUploaded, 0)
 		m.lfsWriteHTTPError(w, requestID, session.Topic, http.StatusBadGateway, "backend_error", err.Error())
@@ -1127,6 +1135,31 @@ func (m *lfsModule) lfsCleanupUploadSessionsLocked() {
 			delete(m.uploadSessions, id)
 		}
 	}
+}
+
+// lfsCheckProduceAck decodes the backend's produce response and returns an
+// error unless it acknowledges topic/partition with error code 0. An upload is
+// only reported successful once the envelope record has been accepted.
+func lfsCheckProduceAck(resp []byte, version int16, topic string, partition int32) error {
+	parsed, err := parseProduceResponse(resp, version)
+	if err != nil {
+		return err
+	}
+	for _, t := range parsed.Topics {
+		if t.Topic != topic {
+			continue
+		}
+		for _, p := range t.Partitions {
+			if p.Partition != partition {
+				continue
+			}
+			if p.ErrorCode != 0 {
+				return fmt.Errorf("broker rejected produce for %s/%d: error code %d", topic, partition, p.ErrorCode)
+			}
+			return nil
+		}
+	}
+	return fmt.Errorf("produce response carries no result for %s/%d", topic, partition)
 }
 
 func lfsStatusForUploadError(err error) (int, string) {
